@@ -21,7 +21,7 @@ ASSUMPTIONS = ['mindsdb dialect: doubled quote -> one quote, \\\' \\" \\\\ -> th
                'mysql/sqlite dialects of this library: only the standard doubled-quote rule is demanded',
                'exponent notation (1e3) is outside "integers/decimals" and not judged',
                'identifier parts containing a back-quote are not generated (no spelling exists for them)']
-BUDGET = {'quick': (8, 80), 'thorough': (16, 500)}
+BUDGET = {'quick': (8, 240), 'thorough': (16, 1800)}
 DIALECTS = ('mindsdb', 'mysql', 'sqlite')
 ALPHA = ['a', "'", '"', '\\', ' ', '%', 'é']
 
